@@ -95,6 +95,26 @@ pub fn judge(scn: &Scenario, res: &ExecResult, _base: Option<&ExecResult>) -> Ve
             }
         }
     }
+    // an explicit disconnect_player(spectator handle): accepted, and nothing further is reported
+    // for that spectator's address afterwards
+    for item in &scn.script {
+        if let Action::Disconnect { handle } = item.action {
+            if handle < scn.num_players {
+                continue;
+            }
+            let nt = &res.nodes[item.node];
+            let me = nt.addr;
+            let Some(sp) = scn.specs.iter().filter(|sp| sp.host == me).nth(handle - scn.num_players) else { continue };
+            if let Some(a) = nt.actions.iter().find(|a| a.round == item.round && a.action == item.action) {
+                if a.res != R_OK {
+                    out.push(v("spectator-disconnect-rejected", item.node, item.round, format!("disconnect_player({handle}) for a spectator returned {}", a.detail)));
+                }
+            }
+            if let Some(e) = nt.events.iter().find(|e| e.0 > item.round && e.2.addr() == Some(sp.addr)) {
+                out.push(v("event-after-spectator-disconnect", item.node, e.0, format!("{:?} reported in round {} for the spectator that was disconnected in round {}", e.2, e.0, item.round)));
+            }
+        }
+    }
     // attaching spectators never changes what the players simulate (deterministic executions)
     if !scn.specs.is_empty() && res.points.is_empty() && res.cut.is_none() {
         let base = nospec_fps(scn);
@@ -162,7 +182,7 @@ pub fn c06() -> i32 {
         }
         let scns = if t { crate::props::drop::vary(scns) } else { scns };
         let n = scns.len();
-        let cfg = ExploreCfg { k: Some(0), wall: Duration::from_secs(if t { 900 } else { 40 }), ..Default::default() };
+        let cfg = ExploreCfg { k: Some(0), wall: Duration::from_secs(if t { 900 } else { 40 }), variants: crate::explore::NET_MENU, variant_every: if t { 1 } else { 3 }, ..Default::default() };
         let out = explore(&scns, &cfg, &judge);
         rep.absorb("pauses of the spectator of every length (crossing the 60-frame ring) x catch-up settings", out, &props, json!({"k": 0, "scenarios": n}));
     }
@@ -259,8 +279,38 @@ pub fn c06() -> i32 {
             s.specs[0].max_behind = 2;
         }
         scns.extend(deaths);
+        // three and four peers: one drops (equal receipt at the survivors), the spectators of the
+        // first survivor must be handed exactly what that survivor finally used
+        let mut deaths3 = crate::props::drop::death_scenarios("c06-death-3peers", &["1+1+1", "1+1+1+1", "2+1+1"], &[2, 8], &[0, 2], &[false, true], if t { 1..20 } else { 3..9 }, 0, &[(100, 300)], &[true], CK_C02 | CK_C04);
+        for (i, s) in deaths3.iter_mut().enumerate() {
+            s.specs[0].catchup = 1 + i % 3;
+            s.specs[0].max_behind = 2 + i % 4;
+        }
+        if !t {
+            deaths3 = deaths3.into_iter().step_by(2).collect();
+        }
+        scns.extend(deaths3);
+        // the host disconnects one of two spectators explicitly (disconnect_player with the
+        // spectator's handle): the players and the other spectator must not notice, and what the
+        // disconnected spectator was handed until then equals the host's sequence
+        for tp in ["1+1", "2+1"] {
+            for w in [0usize, 2, 8] {
+                for r in 0..(if t { 24 } else { 12 }) {
+                    if !t && r % 2 == 1 && w != 2 {
+                        continue;
+                    }
+                    let mut s = spec_scn("c06-spectator-disconnected", tp, w, 0, false, 2, 3, true);
+                    let h = s.num_players;
+                    s.script.push(ScriptItem { round: r, node: 0, action: Action::Disconnect { handle: h } });
+                    s.name = format!("{} disconnect_player({h})@{r}", s.name);
+                    s.horizon = r + 4;
+                    s.probe = 160;
+                    scns.push(s);
+                }
+            }
+        }
         let n = scns.len();
-        let cfg = ExploreCfg { k: Some(0), wall: Duration::from_secs(if t { 900 } else { 40 }), ..Default::default() };
+        let cfg = ExploreCfg { k: Some(0), wall: Duration::from_secs(if t { 900 } else { 40 }), variants: crate::explore::NET_MENU, variant_every: if t { 1 } else { 3 }, ..Default::default() };
         let out = explore(&scns, &cfg, &judge);
         rep.absorb("outages on the host<->spectator link of every length; death of a player peer at every round (Disconnected statuses must reach the spectator exactly as the host has them)", out, &props, json!({"k": 0, "scenarios": n}));
     }
